@@ -51,6 +51,10 @@ def solve_nurimisaki(height, width, problem):
                         cand.append(fold_and(is_white[y, (x + 1) : (x + n)]))
                     elif x < width - n:
                         cand.append(fold_and(is_white[y, (x + 1) : (x + n)], ~is_white[y, x + n]))
+                    if n == 1:
+                        # the line from a cape contains the cape and its one unshaded
+                        # neighbour, so it is never shorter than 2 cells
+                        cand = []
                     solver.ensure(fold_or(cand))
 
     is_sat = solver.solve()
